@@ -65,8 +65,11 @@ class NotOnePickPerMolecule(Exception):
 def member_mass(text):
     import gbigsmiles
 
+    from rdkit import Chem
+    from rdkit.Chem import Descriptors
+
     mg = gbigsmiles.Molecule(text).generate(rng=ScriptedGenerator([]))
-    return float(mg.weight)
+    return float(Descriptors.HeavyAtomMolWt(Chem.MolFromSmiles(mg.smiles)))  # measured independently of MolGen.weight
 
 
 def _eval(kind, data):
